@@ -15,7 +15,7 @@ import (
 // relName maps a file name reported by the library to the project-relative name.
 func relName(res *proto.Result, name string) string {
 	if res.Dir != "" && strings.HasPrefix(name, res.Dir+"/") {
-		return strings.TrimPrefix(name, res.Dir+"/")
+		return filepath.Clean(strings.TrimPrefix(name, res.Dir+"/")) // (a root file may have been given as ./root.jst)
 	}
 	return name
 }
